@@ -83,7 +83,10 @@ func ParseTimeOfDay(timeStr string) (time.Time, int, error) {
 	if err != nil {
 		return time.Time{}, 0, fmt.Errorf("invalid time string:%s, err:%s", timeStr, err.Error())
 	}
-	ts, err := time.Parse("15:04:05", fmt.Sprintf("%s:%s:%s", timeStr[0:2], timeStr[2:4], timeStr[4:6]))
+	if len(prefixTimeStr) != 6 {
+		return time.Time{}, 0, fmt.Errorf("invalid time string:%s, hhmmss expected", timeStr)
+	}
+	ts, err := time.Parse("15:04:05", fmt.Sprintf("%s:%s:%s", prefixTimeStr[0:2], prefixTimeStr[2:4], prefixTimeStr[4:6]))
 	if err != nil {
 		return time.Time{}, 0, fmt.Errorf("time format invalid, err:%s", err.Error())
 	}
